@@ -29,8 +29,9 @@ SENSITIVITY = {
     "MC_Features_sens_edition2024At84.cfg": "LatestEditionRule",
     "MC_Features_sens_compatExact.cfg": "FlagMonotone",
     "MC_Features_sens_latestEditionFirst.cfg": "LatestEditionRule",
+    "MC_Features_sens_nightlyUnderflow.cfg": "ParseTotal",
 }
-STRICT = ["MC_Features_strict_constructs.cfg", "MC_Features_strict_parse.cfg"]
+STRICT = ["MC_Features_strict_constructs.cfg"]
 CONSTRUCTS = {"unsafe_extern", "offset_of", "cstr_literal", "const_cstr", "core_ffi_c", "core_ffi_cstr",
               "abi:C-unwind", "abi:efiapi", "abi:thiscall", "abi:vectorcall", "ptr_metadata",
               "layout_for_ptr"}
@@ -188,7 +189,7 @@ def judge(rec, ob, triggers):
                          % (cfg, ob["rc"], ob["stderr"][-120:]))
         if rec["parse"] == "ok" and rec["gen"] == "ok":
             drift.append("rejected by the CLI (%s) but the L2 model accepts: %s" % (ob["kind"], cfg))
-        if rec["parse"] == "too_early" and ob["kind"] != "clap_reject":
+        if rec["parse"] in ("too_early", "rejected") and ob["kind"] != "clap_reject":
             drift.append("too-early target not rejected by the argument parser: %s (%s)" % (cfg, ob["kind"]))
         if rec["gen"] == "unsupported_edition" and ob["kind"] == "edition_reject":
             want = "edition %s is not available on Rust" % rec["eopt"]
